@@ -1,5 +1,6 @@
 """C19 Model values: equality, ordering and hashing are mutually coherent."""
 import collections
+import re
 
 from mirlib import AnchorMissing, decision_paths, describe_call, describe_operand, describe_rvalue, dom_guards, guards, _suffix_match
 from rules.common import where
@@ -57,6 +58,49 @@ def table(body, first="self", second="other"):
                     cell["computed"].add(nm)
     return cells
 
+
+
+def float_profile(b, yes):
+    """What the Float64/Float64 cell of `eq` (yes = "True") or `compare` (yes = "Equal") identifies beyond identical bit patterns: all NaNs with each
+    other, and +0.0 with -0.0. NaNs: under `is_nan(self)` the answer is `yes` for an `other` that is NaN too (a constant under the second test, or the
+    second test's result itself). Zeros: the remaining values are compared as IEEE numbers (`==`, `<`, partial_cmp, a difference) and not as bit
+    patterns (to_bits, total_cmp, byte images). Returns (nans, zeros) with None for 'mixed forms: not decided'."""
+    PAY = "<Float64Value>.0"
+    ff = []
+    for blk in range(b.n):
+        if b.is_cleanup(blk):
+            continue
+        ks = [(d, l) for d, l, _ in dom_guards(b, blk) if d.startswith("disc(")]
+        if any(l == "Float64Value" and "self" in d for d, l in ks) and any(l == "Float64Value" and "other" in d for d, l in ks):
+            ff.append(blk)
+    if not ff:
+        raise AnchorMissing("%s: no Float64/Float64 cell" % b.defpath)
+    bitwise = ieee = nans = False
+    for blk in ff:
+        g = [(d, l) for d, l, _ in dom_guards(b, blk) if not d.startswith("disc(")]
+        nan_self = any(d.startswith("is_nan(self") and l == "true" for d, l in g)
+        nan_other = any(d.startswith("is_nan(other") and l == "true" for d, l in g)
+        cl = b.call_at(blk)
+        if cl is not None:
+            nm = cl.via_name or cl.name or ""
+            args = [describe_operand(b, a) for a in cl.args]
+            if nm in ("to_bits", "total_cmp", "to_ne_bytes", "to_be_bytes", "to_le_bytes", "transmute"):
+                bitwise = True
+            elif nm in ("eq", "ne", "partial_cmp", "lt", "le", "gt", "ge", "abs", "max", "min") and args and any(PAY in a and "to_bits" not in a for a in args[:1]):
+                ieee = True
+            if nm == "is_nan" and cl.dest[0] == 0 and not cl.dest[1] and ((nan_self and args and args[0].startswith("other")) or (nan_other and args and args[0].startswith("self"))):
+                nans = True
+        descs = [describe_rvalue(b, s_[2]) for s_ in b.stmts(blk) if s_[0] == "A"]
+        for d in descs:
+            m_ = re.match(r"^(Eq|Ne|Lt|Le|Gt|Ge)\((.*)\)$", d)
+            if m_ and PAY in m_.group(2) and "to_bits" not in m_.group(2) and "total_cmp" not in m_.group(2):
+                ieee = True
+        if nan_self and nan_other:
+            for s_ in b.stmts(blk):
+                if s_[0] == "A" and s_[1][0] == 0 and not s_[1][1] and describe_rvalue(b, s_[2]) in ("True", "Ordering::Equal()") and yes in describe_rvalue(b, s_[2]):
+                    nans = True
+    zeros = None if (bitwise and ieee) else (ieee and not bitwise)
+    return nans, zeros
 
 def run(ctx):
     m = ctx.crate(M)
@@ -147,6 +191,16 @@ def run(ctx):
                     can_equal = "Equal" in c["consts"] or bool(c["computed"])
                     r.check(can_equal, "coherence/%s-%s/equal-can-compare-Equal" % (a, b), loc, "values of kinds %s/%s can be equal and compare can yield Equal" % (a, b),
                             "eq(%s, %s) can be true but compare never yields Equal" % (a, b))
+        # the float cell: eq and compare must identify the same special values (all NaNs with each other, +0.0 with -0.0)
+        eq_nan, eq_zero = float_profile(eq_b, "True")
+        cmp_nan, cmp_zero = float_profile(cmp_b, "Equal")
+        r.check(eq_nan == cmp_nan, "coherence/Float64Value-Float64Value/NaNs-identified-alike", where(eq_b), "eq and compare both %s two NaNs" % ("identify" if eq_nan else "tell apart"),
+                "compare %s any two NaNs but eq %s: two NaNs with different bit patterns compare %s" % ("yields Equal for" if cmp_nan else "tells apart", "says they are equal" if eq_nan else "tells them apart", "Equal while == is false" if cmp_nan else "unequal while == is true"))
+        if eq_zero is None or cmp_zero is None:
+            r.ok("coherence/Float64Value-Float64Value/zeros-identified-alike", where(eq_b), "numeric and bitwise comparisons are mixed in one of the two: not decided")
+        else:
+            r.check(eq_zero == cmp_zero, "coherence/Float64Value-Float64Value/zeros-identified-alike", where(eq_b), "eq and compare both %s +0.0 and -0.0" % ("identify" if eq_zero else "tell apart"),
+                    "compare %s +0.0 and -0.0 but eq %s: the order says Equal exactly when == does no longer holds for the two zeros" % ("identifies" if cmp_zero else "tells apart", "identifies them" if eq_zero else "compares bit patterns and tells them apart"))
         f = cells.get(("Float64Value", "Float64Value"))
         r.check(f is not None and "abs" not in f["calls"], "coherence/Float64Value-Float64Value/exact", loc, "float/float comparison is exact",
                 "compare(Float64, Float64) treats |x - y| < f64::EPSILON as Equal while eq is exact: 1e-20 and 2e-20 are unequal but compare Equal, and the relation is not transitive")
@@ -201,12 +255,16 @@ def run(ctx):
                     r.check(thr[a] == thr[b], "hash/%s-%s/same-threshold" % (a, b), where(hash_b), "both draw the small/big line with %s" % sorted(thr[a]), "%s uses %s, %s uses %s: a value between the two thresholds hashes differently in the two kinds although they are equal" % (a, sorted(thr[a]), b, sorted(thr[b])))
         fl = [c for c in hash_b.calls if c.name == "to_bits"]
         nan = [c for c in hash_b.calls if c.name == "is_nan"]
-        r.check(bool(nan), "hash/Float64Value/NaN-normalised", where(hash_b), "NaN (all NaNs are eq) is hashed as one value")
+        eq_nan, eq_zero = float_profile(eq_b, "True")
+        if eq_nan:
+            r.check(bool(nan), "hash/Float64Value/NaN-normalised", where(hash_b), "NaN (all NaNs are eq) is hashed as one value", "all NaNs are equal under eq but their bit patterns are hashed: equal values hash differently")
+        else:
+            r.ok("hash/Float64Value/NaN-normalised", where(hash_b), "eq tells NaNs with different bit patterns apart: no normal form is required of the hash")
         zero_norm = False
         for c in fl:
             g = guards(hash_b, c.block)
             zero_norm = zero_norm or any(("0.0" in d or "Eq(" in d and "0" in d) for d, l, _ in g if "is_nan" not in d)
-        r.check(zero_norm, "hash/Float64Value/zero-normalised", where(hash_b), "+0.0 and -0.0 (eq) are hashed alike",
+        r.check(zero_norm or eq_zero is False, "hash/Float64Value/zero-normalised", where(hash_b), "+0.0 and -0.0 (eq) are hashed alike",
                 "Float64Value(0.0) == Float64Value(-0.0) under eq, but the bit patterns are hashed: equal values hash differently")
 
     with ctx.rule("C19.R4", "T5", "mirrored computed cells do not truncate in one direction only", floor=20) as r:
